@@ -358,7 +358,51 @@ fn random_case(run: &Run, case: u64) {
     run.count("random_archives", 1);
     let replay = json!({"case": case});
     let what = || json!({"paths": paths, "bands": describe(&bands, &paths), "removed_hunk": removed});
-    check_archive(run, &root, nb as u32, case % 4 == 0, &replay, &what);
+    if !check_archive(run, &root, nb as u32, case % 4 == 0, &replay, &what) {
+        return;
+    }
+    // a listing that claims success is the right listing, also when the storage misbehaves: every
+    // operation of the listing of the newest version fails once (permission denied, unspecific,
+    // already-exists; "not found" is an answer, not a failure, for a store that is asked whether
+    // something is there); the result must be an error, a reported error, or the rule's listing
+    if case % 5 == 2 && removed.is_none() && !bands.iter().any(|b| matches!(b, BandState::TornHead { .. })) {
+        let raw = fmt06::read_archive(&root, false);
+        if let Some(n) = raw.bands.iter().filter(|(_, b)| b.head.is_some()).map(|(id, _)| *id).max() {
+            let model = stitch_model(&raw, n);
+            let want: Vec<&str> = model.iter().map(|(_, e)| e.apath.as_str()).collect();
+            let ic = Icept::new(&root, Mode::Log, 0);
+            let base = cs::list(ic.transport(1), Some(n), "/", &[]);
+            if base.clean() {
+                let trace = ic.log();
+                for k in 0..trace.len() {
+                    // probes (metadata) are left out: conserve takes a probe that cannot be answered
+                    // for "not there" (band_exists(..).unwrap_or(false)), by design and outside
+                    // what this property is about; reads and listings that fail must be reported
+                    if trace[k].verb == crate::icept::V::Metadata {
+                        continue;
+                    }
+                    for kind in [conserve::transport::ErrorKind::PermissionDenied, conserve::transport::ErrorKind::Other, conserve::transport::ErrorKind::AlreadyExists] {
+                        let ic = Icept::with_budget(&root, Mode::FailAt { k, kind }, 0, 50_000);
+                        let l = cs::list(ic.transport(1), Some(n), "/", &[]);
+                        run.eval();
+                        run.count("listings_under_a_single_fault", 1);
+                        if l.panic.is_none() && l.clean() {
+                            let got: Vec<&str> = l.value().unwrap().iter().map(|e| e.apath.as_str()).collect();
+                            if got != want {
+                                let at = ic.log().iter().find(|e| e.injected).map(|e| e.brief()).unwrap_or_default();
+                                run.violation(
+                                    "listing-under-fault-claims-success-but-differs-from-rule",
+                                    format!("listing b{n:04} with {at} failing ({}) returned Ok, reported nothing and gave {got:?}; the rule gives {want:?}; archive {}", crate::icept::kind_name(kind), what()),
+                                    json!({"case": case, "fault_k": k}),
+                                );
+                                return;
+                            }
+                        }
+                    }
+                }
+            }
+        }
+    }
     run.nontrivial(fnv(format!("r{case}").as_bytes()));
     run.sample(|| what());
 }
@@ -501,6 +545,6 @@ pub fn run(tier: Tier, replay: Option<Value>) -> i32 {
         "one harness-written archive of three versions with more than 10 000 one-entry hunks (complete; incomplete stopping in the second index subdirectory; incomplete with 5 hunks); one of a complete version under a chain of 130 interrupted ones; then archives written directly in the documented format by the harness: every assignment of {absent, every subset of a P-path alphabet x every split into consecutive non-empty hunks (or no hunk) x {complete, incomplete}} to B bands, exhaustively for (B=2,P=4) and (B=3,P=3), for (B=2,P=3) with one EMPTY hunk (a json [] as old versions wrote) inserted at every position, and for (B=3,P=2) with head-less band directories (empty; with hunks; with hunks and a tail — what a killed band creation or a killed version removal leaves) as additional states [thorough: also (B=4,P=2), (B=3,P=4), (B=3,P=2) with an empty hunk]; each entry is a symlink whose target names its band and path. For every existing N the real iter_entries(Specified(N)) must equal the executable stitching rule over the raw files (paths and targets), be strictly increasing under the C11 order model and finish within 50000 storage operations; on a 1-in-16 sample also with 5 subtrees and 4 exclusion sets against the filtered model. Random archives beyond (<=6 bands, <=12 paths, random splits, an empty hunk inserted in a third of the bands, a removed hunk file in a third of the archives). Distinct non-trivial = archives with an incomplete band and >= 2 existing bands (exhaustive part, by index) + random cases.",
         &["fmt06 writer produces what doc/format.md describes (cross-checked: conserve lists them)", "stitching rule as stated in oracle::stitch_model"],
         Some(exhaustive_ok),
-        &[("listings_compared", 1000), ("listings_spanning_several_bands", 100), ("filtered_listings_compared", 100), ("random_archives", 100), ("listings_of_versions_with_more_than_10000_hunks", 3), ("listings_through_a_chain_of_more_than_100_interrupted_versions", 3)],
+        &[("listings_compared", 1000), ("listings_spanning_several_bands", 100), ("filtered_listings_compared", 100), ("random_archives", 100), ("listings_of_versions_with_more_than_10000_hunks", 3), ("listings_through_a_chain_of_more_than_100_interrupted_versions", 3), ("listings_under_a_single_fault", 300)],
     )
 }
